@@ -545,7 +545,8 @@ impl Gen {
         let kind = self.r.weighted(&w);
         let path = self.pick_path(view, true).unwrap();
         let depth_ok = (path.len() as u32) < self.cfg.max_depth + 1;
-        let again = if kind <= 3 && self.r.chance(1, 6) { self.last.clone() } else { None };
+        // (key-level operations exist on buckets only: never aim one at the root level)
+        let again = if kind <= 3 && self.r.chance(1, 6) { self.last.clone().filter(|(p, _)| !p.is_empty()) } else { None };
         match kind {
             0 => {
                 let key = if bad {
